@@ -358,6 +358,10 @@ func c40check(r *simkit.Run, n *Net, vss []*VS, b *c40blob, after string) {
 				key = "last-modified-differs-after-a-retried-upload"
 			} else if after == "delete" && b.failedDelete {
 				key = "delete-retried-after-a-failed-delete"
+			} else if after != "delete" && b.failedDelete && bodyOf(view) != "" && bodyOf(view) == bodyOf(first) {
+				// same bytes everywhere, different metadata: a replica that missed the failed delete still held the
+				// blob and answered the identical upload "unchanged" (recorded under C01), the others stored it afresh
+				key = "identical-upload-unchanged-on-a-replica-that-missed-a-failed-delete"
 			} else if r.Res.Faults["replica-req-drop"]+r.Res.Faults["replica-resp-lost"]+r.Res.Faults["replica-delay"] > 0 {
 				key += ":with-replica-faults"
 			}
@@ -376,6 +380,11 @@ func minI(a, b int) int {
 	}
 	return b
 }
+
+var bodyRe = regexp.MustCompile(`^http 200 len=\d+ hash=[0-9a-f]+`)
+
+// bodyOf extracts status, length and hash of the body from a replica view ("" unless it is a 200).
+func bodyOf(v string) string { return bodyRe.FindString(v) }
 
 var lmRe = regexp.MustCompile(`(Last-Modified=[^;\]]*|lm=\d+)`)
 
